@@ -167,6 +167,11 @@ def slice_string(d, s):
     return '%s,%s,%s,%s' % ((d,) + tuple(s['s']))
 
 
+def ops_on_disk(f):
+    from .. import ops
+    return ops.on_disk(f)
+
+
 def run(spec, res):
     with harness.casedir() as d, harness.handles() as h:
         run_in(spec, res, d, h)
@@ -251,6 +256,17 @@ def run_file(spec, res, d, h, f, ioapi):
             out = f.sliceDimensions(**kw)
     except Exception as e:
         res.hook('sliceDimensions.return')
+        if in_domain and isinstance(e, IndexError) and any(
+                np.dtype(vs.dtype).kind == 'U' and vs.mask is None and any(
+                    d_ in seld and refsel.sel_len(
+                        seld[d_], before.dims[d_][0]) == 0
+                    for d_ in vs.dims)
+                for vs in before.vars.values()) and ops_on_disk(f):
+            # netCDF4 itself cannot read an empty selection of a string
+            # variable (IndexError inside Variable._get)
+            res.ev(digest(spec), False, 'out-of-domain-raise')
+            res.note('out-of-domain:empty-selection-of-netcdf-string')
+            return
         if in_domain:
             res.ev(digest(spec), True, facet + ['raised'])
             res.viol('in-domain-raise', '%s(%s) raised %r'
